@@ -623,6 +623,7 @@ func (r *runningStep) run() {
 	}
 	verifhook.Emit("SSlot", "obj", r, "slot", "execute", "op", "peek", "avail", r.executionInputAvailable)
 	r.lock.Unlock()
+	verifhook.Gate("foreach.execute.beforeTransition", "obj", r)
 	enabledOutput := any(map[any]any{"enabled": true})
 	// End Enabling with resolved output, and start starting
 	r.transitionStageWithOutput(
